@@ -2,6 +2,8 @@ package unbounded
 
 import (
 	"sync"
+
+	"github.com/jech/galene/verifhook"
 )
 
 // Type Channel implements an unbounded channel
@@ -27,6 +29,7 @@ func (ch *Channel[T]) Put(v T) {
 	empty := len(ch.queue) == 0
 	ch.queue = append(ch.queue, v)
 	ch.mu.Unlock()
+	verifhook.At("unbounded.Put.unlocked", ch, empty)
 
 	if empty {
 		select {
